@@ -128,6 +128,13 @@ def writeEntries (c : Conf) (env : List (String × String)) (i : Nat) :
     | .ok o' => writeEntries c env i fs o' (w ++ [.dir i f.name])
     | .error e => (o, w, some e)
 
+/-- remove the tracked outputs of a directory whose input is gone (`cur` = the outputs of the
+    files the directory holds now) -/
+def removeStale (lastHere : Option (List Key)) (cur : List Key) (o : OutFS) : OutFS :=
+  match lastHere with
+  | none => o
+  | some last => (last.filter (fun p => !cur.contains p)).foldl OutFS.del o
+
 /-- what the pass over the CfgDirs leaves behind -/
 structure Pass where
   out : OutFS
@@ -152,10 +159,7 @@ def passDirs (c : Conf) (track : Bool) (env : List (String × String)) (lastDirs
       { out := o1, files := here :: restFiles, hashes := hs, changed := ch, err := some e }
     | none =>
       let cur := d.map (fun f => Key.dir i f.name)
-      -- remove the tracked outputs whose input is gone
-      let o2 := match lastHere with
-        | none => o1
-        | some last => (last.filter (fun p => !cur.contains p)).foldl OutFS.del o1
+      let o2 := removeStale lastHere cur o1
       let h := hashFiles d
       -- `!cfgDirsChanged && !bytes.Equal(r.lastCfgDirsHash[i], cfgDirsHash[i])`
       let ch' := ch || (lastDirs[i]? != some h)
@@ -173,34 +177,41 @@ def retry : List Bool → Nat × Bool
 def cfgHashOf (c : Conf) (s : Snap) : Option Hash :=
   if c.hasCfg then s.cfg.map (fun f => [(f.name, f.raw)]) else none
 
+/-- the first part of `apply`: hash the config file and normalize it into the output file -/
+def cfgStep (c : Conf) (st : St) (s : Snap) : Except Err OutFS :=
+  if c.hasCfg then
+    match s.cfg with
+    | none => .error .missing
+    | some f => if c.hasOut then normalize c s.env f .cfg st.out else .ok st.out
+  else .ok st.out
+
+/-- the pass over the config directories as `apply` starts it -/
+def dirsStep (c : Conf) (track : Bool) (st : St) (s : Snap) (o0 : OutFS) : Pass :=
+  let lastFiles := if st.lastDirFiles.isEmpty then s.dirs.map (fun _ => none) else st.lastDirFiles
+  let ch0 := st.lastDirs.isEmpty && !s.dirs.isEmpty
+  passDirs c track s.env st.lastDirs 0 s.dirs lastFiles o0 [] ch0
+
+/-- the last part of `apply`: the decision to reload and the retry loop -/
+def finish (c : Conf) (st : St) (s : Snap) (p : Pass) : St × Res :=
+  let st1 := { st with out := p.out, lastDirFiles := p.files }
+  match p.err with
+  | some e => (st1, .err e)
+  | none =>
+    let cfgHash := cfgHashOf c s
+    let watchedHash := s.watched.map hashFiles
+    if !st.force && !p.changed && st.lastCfg == cfgHash && st.lastWatched == watchedHash then
+      (st1, .ok 0)
+    else if c.watchZero then (st1, .ok 0)
+    else
+      let r := retry s.script
+      if r.2 then
+        ({ st1 with force := false, lastCfg := cfgHash, lastDirs := p.hashes, lastWatched := watchedHash }, .ok r.1)
+      else ({ st1 with force := true }, .ok r.1)
+
 /-- `Reloader.apply` -/
 def apply (c : Conf) (track : Bool) (st : St) (s : Snap) : St × Res :=
-  -- config file: hash, then normalize into the output file
-  let cfgStep : Except Err OutFS :=
-    if c.hasCfg then
-      match s.cfg with
-      | none => .error .missing
-      | some f => if c.hasOut then normalize c s.env f .cfg st.out else .ok st.out
-    else .ok st.out
-  match cfgStep with
+  match cfgStep c st s with
   | .error e => (st, .err e)
-  | .ok o0 =>
-    let cfgHash := cfgHashOf c s
-    let lastFiles := if st.lastDirFiles.isEmpty then s.dirs.map (fun _ => none) else st.lastDirFiles
-    let ch0 := st.lastDirs.isEmpty && !s.dirs.isEmpty
-    let p := passDirs c track s.env st.lastDirs 0 s.dirs lastFiles o0 [] ch0
-    let st1 := { st with out := p.out, lastDirFiles := p.files }
-    match p.err with
-    | some e => (st1, .err e)
-    | none =>
-      let watchedHash := s.watched.map hashFiles
-      if !st.force && !p.changed && st.lastCfg == cfgHash && st.lastWatched == watchedHash then
-        (st1, .ok 0)
-      else if c.watchZero then (st1, .ok 0)
-      else
-        let (n, ok) := retry s.script
-        if ok then
-          ({ st1 with force := false, lastCfg := cfgHash, lastDirs := p.hashes, lastWatched := watchedHash }, .ok n)
-        else ({ st1 with force := true }, .ok n)
+  | .ok o0 => finish c st s (dirsStep c track st s o0)
 
 end Thanos.Reloader
